@@ -99,6 +99,12 @@ class DLLSpec(Spec):
         if n + 2 <= self.maxsize:
             ops += [("extend",), ("pre_extend",)]
         ops += [("extend0",), ("pop_back",), ("pop_front",), ("rotate", True), ("rotate", False)]
+        if n + 2 <= self.maxsize:
+            # the source iterable raises after k items: whatever was added, the list must stay consistent
+            ops += [("extend_raise", 0), ("extend_raise", 1), ("extend_raise", 2), ("pre_extend_raise", 1)]
+        if n >= 1:
+            # the source iterable works on the list itself while it is consumed (a sequential interleaving)
+            ops += [("extend_reentrant", min(n, 2))]
         for i in range(n):
             ops += [("remove", i), ("move_to_front", i), ("move_to_back", i)]
         for i in range(n):
@@ -138,6 +144,53 @@ class DLLSpec(Spec):
                 exp = exp + [id(d) for d in data]
             if [id(x.data) for x in nodes] != exp:
                 raise Mismatch("forward-walk", "%s placed payloads wrongly" % kind)
+            model = nodes
+        elif kind in ("extend_raise", "pre_extend_raise"):
+            data = [self.payload(st) for _ in range(op[1])]
+
+            class Boom(Exception):
+                pass
+
+            def src():
+                for d in data:
+                    yield d
+                raise Boom()
+            r = observe(l.extend if kind == "extend_raise" else l.pre_extend, src())
+            if r != ("exc", "Boom"):
+                raise Mismatch("raises", "%s with a source raising after %d items -> %r (the source's exception must "
+                               "propagate)" % (kind, op[1], r))
+            # the statement does not say how many of the consumed items are in the list afterwards: any prefix is
+            # accepted, but the list must be consistent (walk_check in check())
+            nodes = []
+            node = l.head
+            while node is not None and len(nodes) <= len(model) + op[1] + 1:
+                nodes.append(node)
+                node = node.next_node
+            old = [id(x.data) for x in model]
+            ok = False
+            for j in range(op[1] + 1):
+                exp = ([id(d) for d in reversed(data[:j])] + old) if kind == "pre_extend_raise" else (old + [id(d) for d in data[:j]])
+                if [id(x.data) for x in nodes] == exp:
+                    ok = True
+            if not ok:
+                raise Mismatch("forward-walk", "%s with a source raising after %d items left a list that is not the old "
+                               "one plus a prefix of the consumed items" % (kind, op[1]))
+            model = nodes
+        elif kind == "extend_reentrant":
+            k = op[1]
+            r = observe(lambda: l.extend(l.pop_front() for _ in range(k)))
+            if r[0] != "ok":
+                raise Mismatch("raises", "l.extend(l.pop_front() for _ in range(%d)) -> %r" % (k, r))
+            payloads = [x.data for x in model]
+            payloads = payloads[k:] + payloads[:k]
+            nodes = []
+            node = l.head
+            while node is not None and len(nodes) <= len(model) + 1:
+                nodes.append(node)
+                node = node.next_node
+            if [id(x.data) for x in nodes] != [id(d) for d in payloads]:
+                raise Mismatch("forward-walk", "l.extend(l.pop_front() for _ in range(%d)) must rotate the first %d "
+                               "payloads to the back" % (k, k))
             model = nodes
         elif kind in ("pop_back", "pop_front"):
             r = observe(getattr(l, kind))
